@@ -208,6 +208,58 @@ fn run_deser(schema: &Schema, bytes: &[u8]) -> J {
     j
 }
 
+/// a reader schema for the same data: every leaf annotated with a logical type (variant 0) or promoted (variant 1)
+fn reader_variant(s: &J, variant: u8) -> J {
+    let k = s["k"].as_str().unwrap_or("");
+    match (k, variant) {
+        ("bytes", 0) => json!({"k":"decimal","base":"bytes","precision":6,"scale":2}),
+        ("fixed", 0) => json!({"k":"decimal","base":"fixed","name":s["name"],"size":s["size"],"precision":1,"scale":0}),
+        ("int", 0) => json!({"k":"date"}),
+        ("long", 0) => json!({"k":"timestamp-micros"}),
+        ("string", 0) => json!({"k":"uuid","base":"string"}),
+        ("int", 1) => json!({"k":"long"}),
+        ("long", 1) | ("float", 1) => json!({"k":"double"}),
+        ("string", 1) => json!({"k":"bytes"}),
+        ("bytes", 1) => json!({"k":"string"}),
+        ("array", _) => json!({"k":"array","items":reader_variant(&s["items"], variant)}),
+        ("map", _) => json!({"k":"map","values":reader_variant(&s["values"], variant)}),
+        ("union", _) => json!({"k":"union","branches":s["branches"].as_array().unwrap().iter().map(|b| reader_variant(b, variant)).collect::<Vec<_>>()}),
+        ("record", _) => {
+            let mut r = s.clone();
+            r["fields"] = J::Array(s["fields"].as_array().unwrap().iter().map(|f| { let mut g = f.clone(); g["type"] = reader_variant(&f["type"], variant); g }).collect());
+            r
+        }
+        _ => s.clone(),
+    }
+}
+
+/// the datum reader with a reader schema (schema resolution of whatever the bytes decode to): outcome only
+fn run_resolving(schema: &Schema, sterm: &J, bytes: &[u8]) -> J {
+    let mut outs = vec![];
+    for variant in 0..2u8 {
+        let rterm = reader_variant(sterm, variant);
+        if rterm == *sterm { continue; }
+        let text = render_schema_text(&rterm, variant);
+        let Ok(Ok(rs)) = guarded(|| Schema::parse_str(&text)) else { continue };
+        let all = bytes.to_vec();
+        let r = guarded(std::panic::AssertUnwindSafe(|| {
+            let r = GenericDatumReader::builder(schema).reader_schema(&rs).build().map_err(|e| e.to_string())?;
+            let mut slice: &[u8] = &all;
+            m_begin();
+            let v = r.read_value(&mut slice);
+            m_end();
+            v.map(|_| ()).map_err(|e| e.to_string())
+        }));
+        m_end();
+        outs.push(match r {
+            Ok(Ok(())) => json!({"variant": variant, "ok": true, "panic": false, "ekind": "", "err": ""}),
+            Ok(Err(e)) => json!({"variant": variant, "ok": false, "panic": false, "ekind": ekind(&e), "err": e}),
+            Err(p) => json!({"variant": variant, "ok": false, "panic": true, "ekind": "panic", "err": p}),
+        });
+    }
+    J::Array(outs)
+}
+
 fn run_container(bytes: &[u8]) -> J {
     m_begin();
     let r = guarded(std::panic::AssertUnwindSafe(|| {
@@ -325,6 +377,7 @@ fn cmd_run(a: &Args) -> i32 {
                     ev["peak"] = J::from(0);
                     ev["gen"] = no_val();
                     ev["ser"] = no_val();
+                    ev["res"] = json!([]);
                     writeln!(out, "{ev}").unwrap();
                     continue;
                 }
@@ -333,10 +386,12 @@ fn cmd_run(a: &Args) -> i32 {
         reset_counters();
         let base_live = LIVE.load(Ordering::Relaxed);
         CASE_STARTED_MS.store(now_ms(), Ordering::Relaxed);
+        let mut res_r = json!([]);
         let (gen_r, ser_r) = match entry.as_str() {
             "datum" => {
                 let g = run_datum(schema.as_ref().unwrap(), &bytes);
                 let s = run_deser(schema.as_ref().unwrap(), &bytes);
+                res_r = run_resolving(schema.as_ref().unwrap(), &case["s"], &bytes);
                 (g, s)
             }
             "container" => (run_container(&bytes), no_val()),
@@ -348,12 +403,14 @@ fn cmd_run(a: &Args) -> i32 {
         let largest = MEASURED.load(Ordering::Relaxed);
         let peak = PEAK.load(Ordering::Relaxed).saturating_sub(base_live);
         let panicked = gen_r["panic"].as_bool() == Some(true) || ser_r["panic"].as_bool() == Some(true)
-            || gen_r.get("post_panic").and_then(|x| x.as_bool()) == Some(true);
+            || gen_r.get("post_panic").and_then(|x| x.as_bool()) == Some(true)
+            || res_r.as_array().is_some_and(|a| a.iter().any(|x| x["panic"].as_bool() == Some(true)));
         ev["outcome"] = J::from(if panicked { "panic" } else if gen_r["ok"].as_bool() == Some(true) { "ok" } else { "err" });
         ev["largest"] = cap31(largest);
         ev["peak"] = cap31(peak);
         ev["gen"] = gen_r;
         ev["ser"] = ser_r;
+        ev["res"] = res_r;
         writeln!(out, "{ev}").unwrap();
         out.flush().unwrap();
     }
